@@ -16,7 +16,9 @@ import (
 	"time"
 
 	"github.com/dop251/goja"
+	"github.com/dop251/goja_nodejs/console"
 	"github.com/dop251/goja_nodejs/eventloop"
+	"github.com/dop251/goja_nodejs/require"
 
 	"verifharness/internal/hx"
 )
@@ -31,7 +33,15 @@ type act struct {
 
 type program struct {
 	Cbs [][]act `json:"cbs"`
+	Con bool    `json:"con,omitempty"` // the loop's console is enabled (messages go to a printer that discards them)
 }
+
+// console output of the programs is discarded (stdout carries the line protocol)
+type nullPrinter struct{}
+
+func (nullPrinter) Log(string)   {}
+func (nullPrinter) Warn(string)  {}
+func (nullPrinter) Error(string) {}
 
 const prelude = `
 var LOG = [], NEXT = 1, H = {}, HID = {};
@@ -61,7 +71,9 @@ function body(k, me) {
       case "clr":
         if (H[a.a] !== undefined) { LOG.push("c:" + HID[a.a]); clearTimeout(H[a.a]); clearImmediate(H[a.a]); clearInterval(H[a.a]); }
         break;
-      case "throw": LOG.push("x:" + me); throw new Error("boom");
+      case "throw": LOG.push("x:" + me);
+        switch (a.d) { case 1: throw null; case 2: throw undefined; case 3: throw 0; case 4: throw ""; case 5: throw {};
+          case 6: throw Symbol("s"); case 7: throw { toString: function () { throw new Error("ts"); } }; default: throw new Error("boom"); }
     }
   }
 }
@@ -73,7 +85,14 @@ func execProgram(p program) (out string) {
 			out = strings.ReplaceAll(fmt.Sprintf("PANIC %v", r), " ", "_")
 		}
 	}()
-	loop := eventloop.NewEventLoop(eventloop.EnableConsole(false))
+	var loop *eventloop.EventLoop
+	if p.Con {
+		reg := require.NewRegistry()
+		reg.RegisterNativeModule("console", console.RequireWithPrinter(nullPrinter{}))
+		loop = eventloop.NewEventLoop(eventloop.WithRegistry(reg))
+	} else {
+		loop = eventloop.NewEventLoop(eventloop.EnableConsole(false))
+	}
 	var log []string
 	done := make(chan struct{})
 	go func() {
@@ -239,7 +258,7 @@ func (g *gen) program() program {
 			case x < 94:
 				b = append(b, act{K: "clr", A: r.Intn(3)})
 			case x < 98:
-				b = append(b, act{K: "throw"})
+				b = append(b, act{K: "throw", D: []int{0, 0, 0, 1, 2, 3, 4, 5, 6, 7}[r.Intn(10)]})
 				i = m
 			default:
 				b = append(b, act{K: "log"})
@@ -288,7 +307,12 @@ func main() {
 		}
 	}
 	for i := 0; i < *n; i++ {
-		emit(g.program())
+		pr := g.program()
+		pr.Con = g.r.Chance(50)
+		if pr.Con {
+			st.Hit("console:enabled")
+		}
+		emit(pr)
 	}
 	if *statsPath != "" {
 		st.WriteJSON(*statsPath, map[string]interface{}{"seed": *seed})
